@@ -31,7 +31,7 @@ var props = map[string]PropSpec{
 		ID: "C02",
 		Quick: []HarnessRun{
 			{Name: "solver.VP_C02_pb_norm", Kind: "L", Params: map[string]int{"k": 4, "W": 1 << 20, "D": 1 << 22}, Bounds: "GtEq/LtEq/Eq/AtMost on <=4 terms over distinct variables, symbolic signs, |coefficient| <= 2^20, |degree| <= 2^22, symbolic assignment; integer printer (no-wrap analysis)", Require: []string{"norm"}},
-			{Name: "solver.VP_C02_pb_norm", Kind: "L", Params: map[string]int{"k": 3, "W": 15, "D": 63, "int": 0}, Bounds: "same lemma, bit-vector printer, |coefficient| <= 15, |degree| <= 63 (cross-check of the integer printer)", Require: []string{"norm"}},
+			{Name: "solver.VP_C02_pb_norm", Kind: "L", Params: map[string]int{"k": 3, "W": 7, "D": 31, "int": 0}, Bounds: "same lemma, bit-vector printer, |coefficient| <= 7, |degree| <= 31 (cross-check of the integer printer)", Require: []string{"norm"}},
 			{Name: "solver.VP_C02_card_units", Kind: "L", Params: map[string]int{"n": 3}, Bounds: "one cardinality constraint (CardConstr with AtLeast in [-1,4], AtMost1, Exactly1) over variables 1..3 with symbolic signs, together with any set of unit constraints (each variable: none/true/false), before or after it; lemma: parsed problem == constraints as written for every assignment; then Solve", Require: []string{"units-lemma", "sat", "parse-unsat"}},
 			{Name: "solver.VP_C02_card_e2e", Kind: "E", Params: map[string]int{"n": 3, "m": 2, "k": 2}, Bounds: "n=3; <=2 cardinality constraints on <=2 distinct variables each, literals fully symbolic", Require: []string{"sat", "parse-unsat"}},
 			{Name: "solver.VP_C02_pb_units", Kind: "L", Params: map[string]int{"n": 3, "W": 3, "D": 8}, Bounds: "one GtEq/LtEq/Eq constraint over variables 1..3, symbolic signs, coefficients in [1,3], degree in [-1,8], with any set of unit constraints before or after it; lemma: parsed problem == constraints as written for every assignment; then Solve", Require: []string{"units-lemma", "sat", "unsat", "parse-unsat"}},
@@ -39,7 +39,7 @@ var props = map[string]PropSpec{
 		},
 		Thorough: []HarnessRun{
 			{Name: "solver.VP_C02_pb_norm", Kind: "L", Params: map[string]int{"k": 4, "W": 1 << 20, "D": 1 << 22}, Bounds: "as quick", Require: []string{"norm"}},
-			{Name: "solver.VP_C02_pb_norm", Kind: "L", Params: map[string]int{"k": 3, "W": 15, "D": 63, "int": 0}, Bounds: "bit-vector printer cross-check", Require: []string{"norm"}},
+			{Name: "solver.VP_C02_pb_norm", Kind: "L", Params: map[string]int{"k": 3, "W": 15, "D": 63, "int": 0}, Bounds: "bit-vector printer cross-check, |coefficient| <= 15", Require: []string{"norm"}},
 			{Name: "solver.VP_C02_card_e2e", Kind: "E", Params: map[string]int{"n": 3, "m": 2, "k": 3}, Bounds: "n=3; <=2 cardinality constraints on <=3 distinct variables each", Require: []string{"sat", "unsat", "parse-unsat"}},
 			{Name: "solver.VP_C02_pb_e2e", Kind: "E", Params: map[string]int{"n": 3, "m": 2, "k": 3, "unitfirst": 1, "W": 2, "D": 4}, Bounds: "n=3; optional unit clause + one PB constraint on <=3 variables, coefficients [-2,2], degree [-4,4]", Require: []string{"sat", "unsat", "parse-unsat"}},
 			{Name: "solver.VP_C02_pb_e2e", Kind: "E", Params: map[string]int{"n": 3, "m": 2, "k": 2, "kother": 1, "W": 2, "D": 3}, Bounds: "n=3; two constraints of any kind, the first on one variable, the second on <=2", Require: []string{"sat", "parse-unsat"}},
